@@ -13,6 +13,7 @@ EXPLANATION = (
     "indistinguishable from the spine; P4 _convert_input, _convert_output and _type_to_callmode dispatch on the same type tags and end in the same "
     "error, and every call-mode letter they produce is a key of mode_types. Textual round trip of floats and results inside a running program are "
     "not decided."
+    " Added after seed round 6: P7 the problog_export wrapper fails only under except UnifyError: the truth value of the function's result never decides success."
 )
 TECHNIQUE = "static analysis: writer/reader table agreement and codec-shape rules on the AST"
 LEVEL_TEXT = EXPLANATION
